@@ -40,6 +40,12 @@ func (ev *Eval) quant(q *EQuant, m skMode) (string, error) {
 		}
 	}()
 	skolem := (q.All && m == skForall) || (!q.All && m == skExists)
+	if skolem && ev.probing == 0 {
+		if ev.skolemSet == nil {
+			ev.skolemSet = map[string]bool{}
+		}
+		ev.skolemSet[name] = true
+	}
 	wOK := false
 	var w string
 	if !q.All && q.Witness != nil && m == skForall && q.Lo != nil {
